@@ -5,6 +5,7 @@
 import AnthemModel.Proofs.RewritesBasic
 import AnthemModel.Proofs.RewritesQuant
 import AnthemModel.Proofs.RewritesClassic
+import AnthemModel.Proofs.RewritesFV
 namespace Anthem.C07
 
 /-- Every rewrite of the `INTUITIONISTIC` array is an HT-equivalence. -/
@@ -114,6 +115,47 @@ theorem portfolio_sound_classic (s : Strategy) (fuel : Nat) (F : Formula) :
   · exact restrictQuantifierDomain_classEquiv
   · exact extendQuantifierScope_sound
   · exact simplifyTransitiveEquality_classEquiv
+
+/-- Every one of the fifteen rewrites is free-variable non-increasing. -/
+theorem rewrites_no_new_free_variables :
+    ∀ r ∈ intuitionistic ++ htPortfolio ++ classic, ∀ F, FVLe (r F) F := by
+  intro r hr
+  simp only [intuitionistic, htPortfolio, classic, List.append_nil, List.mem_append, List.mem_cons,
+    List.mem_nil_iff, or_false] at hr
+  rcases hr with (rfl | rfl | rfl | rfl | rfl | rfl | rfl | rfl | rfl | rfl) | (rfl | rfl | rfl | rfl | rfl)
+  · exact evaluateComparisons_FVLe
+  · exact applyNegationDefinitionInverse_FVLe
+  · exact applyReverseImplicationDefinition_FVLe
+  · exact applyEquivalenceDefinitionInverse_FVLe
+  · exact removeIdentities_FVLe
+  · exact removeAnnihilations_FVLe
+  · exact removeIdempotences_FVLe
+  · exact removeOrphanedVariables_FVLe
+  · exact removeEmptyQuantifications_FVLe
+  · exact joinNestedQuantifiers_FVLe
+  · exact removeDoubleNegation_FVLe
+  · exact substituteDefinedVariables_FVLe
+  · exact restrictQuantifierDomain_FVLe
+  · exact extendQuantifierScope_FVLe
+  · exact simplifyTransitiveEquality_FVLe
+
+/-- **C07, second claim**: whatever the portfolio, strategy and pass bound, the result has no free
+    variable that the input did not have. -/
+theorem portfolio_no_new_free_variables (p : Portfolio) (s : Strategy) (fuel : Nat) (F : Formula) :
+    ∀ v, (simplifyWith p s fuel F).1.FV v → F.FV v := by
+  have hop : ∀ G, FVLe (compose p.rewrites G) G := by
+    apply compose_FVLe
+    intro r hr
+    apply rewrites_no_new_free_variables r
+    cases p <;> simp only [Portfolio.rewrites] at hr <;> simp only [List.mem_append] at hr ⊢
+    · exact Or.inl (Or.inl hr)
+    · exact Or.inl hr
+    · exact hr
+  unfold simplifyWith
+  cases s with
+  | shallow => exact hop F
+  | recursive => exact applyPost_FVLe hop F
+  | fixpoint => exact applyFixpointFuel_FVLe hop fuel F
 
 /-- Non-vacuity: the portfolio really rewrites something (`p and #true` becomes `p`). -/
 example : (simplifyWith .intuitionistic .fixpoint 8
